@@ -518,10 +518,6 @@ def clause_semantic(cases, ctx: Ctx):
     return out
 
 
-_DEBUG = bool(os.environ.get("VERIF_C17_DEBUG"))
-_DEBUG_MAX: dict = {}
-
-
 def _judge_semantic(ctx, name, rf, c, i, v0, v1, v2, ref, cfrc, post):
     out = []
     obs_ref, r_ref, term_ref, trunc_ref, info_ref = ref
@@ -557,11 +553,6 @@ def _judge_semantic(ctx, name, rf, c, i, v0, v1, v2, ref, cfrc, post):
         ok1 = True
         if not ok0:  # "does the completion repair it" is asked strictly, so that a class never hinges on the pass/fail tolerance
             ok1, ok2 = (close(g, refval, 1e-5, floor, absolute / 10) for g in (g1, g2))
-        if _DEBUG and ok0 and np.asarray(g0).size:
-            with np.errstate(invalid="ignore"):
-                e = np.nanmax(np.where(np.asarray(g0, dtype=np.float64) == refval, 0.0, np.abs(np.asarray(g0, dtype=np.float64) - refval) / (1e-4 * np.maximum(floor, np.abs(refval)) + absolute)))
-            if e > _DEBUG_MAX.get((name, quantity), 0.0):
-                _DEBUG_MAX[(name, quantity)] = float(e)
         cls = classify(ok0, ok1, ok2, not close(g1, g0, 1e-7), not close(g2, g1, 1e-7))
         if cls is None:
             return False
@@ -632,13 +623,12 @@ def clause_transition(cases, ctx: Ctx):
             post = states[(c["key"], tuple(c["seq"]) + (c["a"],))]
             a = acts[c["a"]]
             q0, v0 = np.asarray(pre.sim_state.qpos, dtype=np.float64), np.asarray(pre.sim_state.qvel, dtype=np.float64)
-            rf.reset_to(q0, v0)
             changed, disc = rf.conditioning(q0, v0, a)  # harness-side analysis of the reference only (decides skipping, never a verdict)
-            rf.reset_to(q0, v0)
-            q_ref, v_ref = rf.real_step(a)
             pert = 1e-6 * np.where(np.arange(len(q0)) % 2 == 0, 1.0, -1.0)
             rf.reset_to(q0 + pert, v0)
             q_p, v_p = rf.real_step(a)
+            rf.reset_to(q0, v0)
+            q_ref, v_ref = rf.real_step(a)  # last, so that the reference's MjData holds the unperturbed result below
             k = cov_key(c)
             sens = max(float(np.max(np.abs(q_p - q_ref) / np.maximum(1.0, np.abs(q_ref)))), float(np.max(np.abs(v_p - v_ref) / np.maximum(1.0, np.abs(v_ref)))))
             tol = 1e-3 + 20.0 * sens  # the reference's own conditioning widens the tolerance, deterministically
@@ -651,10 +641,6 @@ def clause_transition(cases, ctx: Ctx):
                 ctx.outcome(f"mujoco:transition-skipped-impact:{name}", k)
                 continue
             ctx.outcome(f"mujoco:transition:{name}", k)
-            if os.environ.get("VERIF_C17_DEBUG"):
-                q1_, v1_ = np.asarray(post.sim_state.qpos, dtype=np.float64), np.asarray(post.sim_state.qvel, dtype=np.float64)
-                e = max(float(np.max(np.abs(q1_ - q_ref) / np.maximum(1.0, np.abs(q_ref)))), float(np.max(np.abs(v1_ - v_ref) / np.maximum(1.0, np.abs(v_ref)))))
-                print(f"DEBUG transition {name} seq={c['seq']} a={c['a']} err={e:.2e} sens={sens:.2e}", flush=True)
             lab = case_label(c) + f" then action #{c['a']}"
             q1, v1 = np.asarray(post.sim_state.qpos, dtype=np.float64), np.asarray(post.sim_state.qvel, dtype=np.float64)
             if not close(q1, q_ref, tol):
